@@ -325,16 +325,14 @@ func (k *checker) goChecks(g rb.GV, bv reflect.Value, orig interface{}) {
 	}
 	// a pointer to a scalar is dereferenced by the bridge: the value seen is the pointee
 	eff := g
+	effv := bv
 	for eff.Kind() == reflect.Ptr && !eff.Nil {
 		ek := eff.E[0].Kind()
 		if ek == reflect.Struct || ek == reflect.Array {
 			break
 		}
 		eff = eff.E[0]
-	}
-	effv := bv
-	if eff.T != g.T {
-		for effv.Kind() == reflect.Ptr {
+		if effv.Kind() == reflect.Ptr {
 			effv = effv.Elem()
 		}
 	}
@@ -656,6 +654,7 @@ func (k *checker) goContainer(g rb.GV, bv reflect.Value, val otto.Value, identit
 	} else if identity && !sameIdentity(reflect.ValueOf(e), bv) {
 		k.fail("go:Export:identity", "the same Go object", "a copy", "")
 	}
+	k.goBack(bv)
 	i, f, s, b, ok := k.conv(val)
 	k.marshal(val, bv, hasNonFinite(g))
 	src := `log(typeof x); log(__eq(x, ` + rb.JSLit(g, false) + `)); log(__desc(x)); log(String(x)); log(Number(x)); log(Boolean(x))`
@@ -678,6 +677,44 @@ func (k *checker) goContainer(g rb.GV, bv reflect.Value, val otto.Value, identit
 	}
 	if g.Kind() == reflect.Struct || g.Kind() == reflect.Ptr && g.E[0].Kind() == reflect.Struct && g.E[0].T == "S1" {
 		k.goStruct(g)
+	}
+}
+
+// goBack: the third leg of the round trip. The script hands the bridged container, untouched, to
+// a Go function whose parameter has exactly the container's type (and to a struct field of that
+// type): what arrives is equal to the original, whatever the key and element types are.
+func (k *checker) goBack(bv reflect.Value) {
+	switch bv.Kind() {
+	case reflect.Map, reflect.Slice, reflect.Array, reflect.Struct:
+	default:
+		return
+	}
+	v := theVM()
+	k.stage = "back"
+	var got reflect.Value
+	fn := reflect.MakeFunc(reflect.FuncOf([]reflect.Type{bv.Type()}, nil, false), func(args []reflect.Value) []reflect.Value {
+		got = args[0]
+		return nil
+	})
+	if err := v.Set("__back", fn.Interface()); err != nil {
+		k.fail("go:back", "Set of a Go function succeeds", err.Error(), bv.Type().String())
+		return
+	}
+	out := ox.Run(v, "__back(x)")
+	k.c.Eval(1)
+	switch {
+	case out.Panic != nil:
+		k.fails++
+		k.c.Fail("panic", "go:back", k.in, "no Go panic", fmt.Sprint(out.Panic), out.Stack)
+		resetVM()
+	case out.Err != nil:
+		k.fail("go:back", "func("+bv.Type().String()+") receives the value", out.Err.Error(), "")
+	case !got.IsValid():
+		k.fail("go:back", "the function is called", "not called", "")
+	case rb.CanonValue(got) != rb.CanonValue(bv):
+		k.fail("go:back", rb.CanonValue(bv), rb.CanonValue(got), "parameter type "+bv.Type().String())
+	default:
+		k.c.Feature("back:" + bv.Kind().String())
 	}
 }
 
